@@ -996,11 +996,25 @@ enum BlockingMode {
     Timeout(Duration),
 }
 
-#[allow(clippy::uninit_vec, clippy::type_complexity)]
+#[allow(clippy::type_complexity)]
 fn recv(
     fd: c_int,
     blocking_mode: BlockingMode,
 ) -> Result<(Vec<u8>, Vec<OsOpaqueIpcChannel>, Vec<OsIpcSharedMemory>), UnixError> {
+    loop {
+        // `None` means a fragmented message was abandoned by its sender half-way
+        // (the sender died or gave up); it is discarded and we wait for the next message.
+        if let Some(message) = recv_message(fd, blocking_mode)? {
+            return Ok(message);
+        }
+    }
+}
+
+#[allow(clippy::uninit_vec, clippy::type_complexity)]
+fn recv_message(
+    fd: c_int,
+    blocking_mode: BlockingMode,
+) -> Result<Option<(Vec<u8>, Vec<OsOpaqueIpcChannel>, Vec<OsIpcSharedMemory>)>, UnixError> {
     let (mut channels, mut shared_memory_regions) = (Vec::new(), Vec::new());
 
     // First fragments begins with a header recording the total data length.
@@ -1048,7 +1062,7 @@ fn recv(
 
     if total_size == main_data_buffer.len() {
         // Fast path: no fragments.
-        return Ok((main_data_buffer, channels, shared_memory_regions));
+        return Ok(Some((main_data_buffer, channels, shared_memory_regions)));
     }
 
     // Reassemble fragments.
@@ -1090,12 +1104,21 @@ fn recv(
 
         match result.cmp(&0) {
             cmp::Ordering::Greater => continue,
-            cmp::Ordering::Equal => return Err(UnixError::ChannelClosed),
+            cmp::Ordering::Equal => {
+                // The dedicated channel was closed before the whole message arrived:
+                // the sender went away in the middle of this message. That says nothing about
+                // the other senders of this channel, so do not report it as closed;
+                // release what came with the partial message and drop it.
+                for mut channel in channels {
+                    drop(channel.to_receiver());
+                }
+                return Ok(None);
+            },
             cmp::Ordering::Less => return Err(UnixError::last()),
         }
     }
 
-    Ok((main_data_buffer, channels, shared_memory_regions))
+    Ok(Some((main_data_buffer, channels, shared_memory_regions)))
 }
 
 // https://github.com/servo/ipc-channel/issues/192
